@@ -47,10 +47,12 @@ VARIABLES
     appSinceSend, sentSinceStart, infoAtCheck,
     nApp, nRemote, iter, nCrash,
     remoteSeen, \* history: versions that arrived from other instances
+    mergedN,    \* Syncer.lastByInstance: number of remote snapshots merged in this run (sync.go:561)
+    committedN, \* cleaner.Worker.lastByInstance: what the cleaner was told is contained in an own stored snapshot (send.go:265)
     act
 vars == <<main, store, appDBI, shadowDBI, lastTxn, clock, bucket, ownOld, ownDelivered, avail, pc, lastSynced,
           hasDataAtStart, hasSnapshots, waitingOwn, cur, ret, appLast, uncaptured, unpub, sendCover,
-          appSinceSend, sentSinceStart, infoAtCheck, nApp, nRemote, iter, nCrash, remoteSeen, act>>
+          appSinceSend, sentSinceStart, infoAtCheck, nApp, nRemote, iter, nCrash, remoteSeen, mergedN, committedN, act>>
 
 (* versions a remote snapshot may carry for a key: older than every local stamp, or stamped "now"   *)
 (* (shadow mode: all instances share one monotone clock; native mode: application chosen, 50 is     *)
@@ -93,7 +95,7 @@ Init ==
       /\ unpub = IF data THEN {[k |-> CHOOSE x \in Keys : TRUE, v |-> 1, txn |-> 1]} ELSE {}
       /\ sendCover = {}
       /\ appSinceSend = FALSE /\ sentSinceStart = FALSE /\ infoAtCheck = 0
-      /\ nApp = 0 /\ nRemote = 0 /\ iter = 0 /\ nCrash = 0 /\ remoteSeen = {}
+      /\ nApp = 0 /\ nRemote = 0 /\ iter = 0 /\ nCrash = 0 /\ remoteSeen = {} /\ mergedN = 0 /\ committedN = 0
       /\ act = [name |-> "init", start |-> ss]
 
 ---------------------------------------------------------------------------
@@ -122,6 +124,7 @@ ApplyTxn(t) ==
 NoLMDBChange == UNCHANGED <<main, store, appDBI, shadowDBI, lastTxn>>
 NoHist == UNCHANGED <<appLast, uncaptured, unpub, sendCover, appSinceSend, sentSinceStart, infoAtCheck>>
 NoRS == UNCHANGED remoteSeen
+NoMC == UNCHANGED <<mergedN, committedN>>
 NoEnv == UNCHANGED <<bucket, ownOld, ownDelivered, avail, nApp, nRemote, nCrash>>
 
 (* history bookkeeping of a capture *)
@@ -204,6 +207,7 @@ Store(fails) ==   \* send.go:193-234: `fails` Store calls fail first
 SendCommitted ==
     /\ pc = "send.stored"
     /\ pc' = "send.committed"
+    /\ committedN' = mergedN /\ mergedN' = mergedN
     /\ act' = [name |-> "run", to |-> "send.committed"]
     /\ NoLMDBChange /\ NoHist /\ NoEnv
     /\ UNCHANGED <<clock, lastSynced, hasDataAtStart, hasSnapshots, waitingOwn, cur, ret, iter>>
@@ -268,6 +272,7 @@ LoadInfo ==   \* sync.go:525-536
     /\ cur' = [cur EXCEPT !.txn = IF lastTxn < cur.w THEN lastTxn ELSE cur.w]
     /\ pc' = "load.infoRead"
     /\ act' = [name |-> "run", to |-> "load.infoRead", txn |-> cur'.txn]
+    /\ mergedN' = (IF cur.own THEN mergedN ELSE mergedN + 1) /\ committedN' = committedN
     /\ NoLMDBChange /\ NoHist /\ NoEnv
     /\ UNCHANGED <<clock, lastSynced, hasDataAtStart, hasSnapshots, waitingOwn, ret, iter>>
 
@@ -300,9 +305,10 @@ Decide ==
        /\ NoLMDBChange /\ NoHist /\ NoEnv
        /\ UNCHANGED <<clock, lastSynced, hasDataAtStart, hasSnapshots, waitingOwn, cur, ret, iter>>
 
-Run == Boot \/ StartCapture \/ StartSendOrSkip \/ SendInfo \/ (\E f \in 0..RetryCount : Store(f))
-       \/ SendCommitted \/ SendReturn \/ ToLoopTop \/ NextUpdate \/ LoadTxn \/ NoUpdate
-       \/ LoadInfo \/ LoadDone \/ CheckRead \/ Decide
+Run == \/ (Boot \/ StartCapture \/ StartSendOrSkip \/ SendInfo \/ (\E f \in 0..RetryCount : Store(f))
+           \/ SendReturn \/ ToLoopTop \/ NextUpdate \/ LoadTxn \/ NoUpdate
+           \/ LoadDone \/ CheckRead \/ Decide) /\ NoMC
+       \/ SendCommitted \/ LoadInfo
 
 ---------------------------------------------------------------------------
 (* Environment.                                                            *)
@@ -361,13 +367,14 @@ Crash(wipe) ==   \* stop at the yield point, restart the process (LMDB kept or e
             /\ appLast' = EmptyMain /\ uncaptured' = {} /\ unpub' = {}
        ELSE /\ NoLMDBChange /\ UNCHANGED <<appLast, uncaptured, unpub>>
     /\ sentSinceStart' = FALSE /\ appSinceSend' = appSinceSend /\ sendCover' = {} /\ infoAtCheck' = 0
+    /\ mergedN' = 0 /\ committedN' = 0
     /\ act' = [name |-> "crash", wipe |-> wipe, at |-> pc]
     /\ UNCHANGED <<clock, bucket, iter, nApp, nRemote>>
 
 RemoteImgs == [Keys -> RemoteVers \cup {Absent}]
-Env == \/ \E k \in Keys, v \in AppVals \cup {-1} : AppCommit(k, v) /\ NoRS
-       \/ \E img \in RemoteImgs : Inject(Image(img))
-       \/ DeliverOwn /\ NoRS
+Env == \/ \E k \in Keys, v \in AppVals \cup {-1} : AppCommit(k, v) /\ NoRS /\ NoMC
+       \/ \E img \in RemoteImgs : Inject(Image(img)) /\ NoMC
+       \/ DeliverOwn /\ NoRS /\ NoMC
        \/ \E w \in BOOLEAN : Crash(w) /\ NoRS
 
 Next == (Run /\ NoRS) \/ Env
@@ -411,6 +418,9 @@ BucketMonotone ==
         \A k \in DOMAIN old : \/ k \in DOMAIN new /\ BeatsOrEq(new[k], old[k])
                               \/ <<k, old[k]>> \in remoteSeen   \* still held by the instance it came from
         ]_vars
+
+(* C05/C12: the cleaner is told about a merged remote snapshot only after an own snapshot containing it was stored *)
+CommittedOnlyAfterStore == [][committedN' # committedN => (pc = "send.stored" \/ act'.name = "crash")]_vars
 
 TypeOK == /\ lastTxn \in Nat /\ lastSynced \in Nat
           /\ \A k \in Keys : main[k] \in {-1} \cup Val
